@@ -58,11 +58,13 @@ Proof. unfold eval_bin, shr_u64, count_ok. cbn [bits]. destruct ((0 <=? k) && (k
 
 Lemma ev_sub_ull a b : 0 <= a < 2 ^ 64 -> 0 <= b < 2 ^ 64 -> eval_bin BSub TULL a TULL b = Some (TULL, u64 (a - b)).
 Proof.
-  intros Ha Hb. unfold eval_bin; cbv zeta; cbn [common]. rewrite !conv_ull, !u64_id by assumption. reflexivity.
+  intros Ha Hb. unfold eval_bin; cbv zeta; cbn [common].
+  rewrite (conv_id TULL a), (conv_id TULL b) by (apply fits_ull; assumption). reflexivity.
 Qed.
 Lemma ev_add_ull a b : 0 <= a < 2 ^ 64 -> 0 <= b < 2 ^ 64 -> eval_bin BAdd TULL a TULL b = Some (TULL, u64 (a + b)).
 Proof.
-  intros Ha Hb. unfold eval_bin; cbv zeta; cbn [common]. rewrite !conv_ull, !u64_id by assumption. reflexivity.
+  intros Ha Hb. unfold eval_bin; cbv zeta; cbn [common].
+  rewrite (conv_id TULL a), (conv_id TULL b) by (apply fits_ull; assumption). reflexivity.
 Qed.
 
 Lemma land_u64 a b : 0 <= a < 2 ^ 64 -> 0 <= b -> 0 <= Z.land a b < 2 ^ 64.
@@ -81,12 +83,16 @@ Qed.
 
 Lemma ev_and_ull a b : 0 <= a < 2 ^ 64 -> 0 <= b < 2 ^ 64 -> eval_bin BAnd TULL a TULL b = Some (TULL, Z.land a b).
 Proof.
-  intros Ha Hb. unfold eval_bin; cbv zeta; cbn [common]. rewrite !conv_ull, (u64_id a), (u64_id b) by assumption.
+  intros Ha Hb. unfold eval_bin; cbv zeta; cbn [common].
+  rewrite (conv_id TULL a), (conv_id TULL b) by (apply fits_ull; assumption).
+  change (conv TULL (Z.land a b)) with (u64 (Z.land a b)).
   rewrite u64_id by (apply land_u64; lia). reflexivity.
 Qed.
 Lemma ev_or_ull a b : 0 <= a < 2 ^ 64 -> 0 <= b < 2 ^ 64 -> eval_bin BOr TULL a TULL b = Some (TULL, Z.lor a b).
 Proof.
-  intros Ha Hb. unfold eval_bin; cbv zeta; cbn [common]. rewrite !conv_ull, (u64_id a), (u64_id b) by assumption.
+  intros Ha Hb. unfold eval_bin; cbv zeta; cbn [common].
+  rewrite (conv_id TULL a), (conv_id TULL b) by (apply fits_ull; assumption).
+  change (conv TULL (Z.lor a b)) with (u64 (Z.lor a b)).
   rewrite u64_id by (apply lor_u64; lia). reflexivity.
 Qed.
 
@@ -137,6 +143,164 @@ Proof.
   intros [-> | ->] Hw; unfold read_fullwidth_guard, write_fullwidth_guard;
     (erewrite ceval_bin; [| exact I | apply ceval_var; [reflexivity | apply fits_int; exact Hw]
                           | erewrite ceval_bin; [| exact I | apply ceval_lit; reflexivity | apply ceval_lit; reflexivity];
-                            reflexivity]);
-    unfold eval_bin; cbv zeta; cbn [common]; rewrite conv_id by (apply fits_int; exact Hw); reflexivity.
+                            vm_compute; reflexivity]);
+    unfold eval_bin; cbv zeta; cbn [common]; rewrite !conv_id by (apply fits_int; lia); reflexivity.
 Qed.
+
+(* ------------------------------------------------------------------ stepping through programs *)
+
+Lemma shiftr_u64 a k : 0 <= a < 2 ^ 64 -> 0 <= k -> 0 <= Z.shiftr a k < 2 ^ 64.
+Proof.
+  intros Ha Hk. rewrite Z.shiftr_div_pow2 by lia. pose proof (pow2_pos k Hk). split.
+  - apply Z.div_pos; lia.
+  - apply Z.le_lt_trans with a; [|lia]. apply Z.div_le_upper_bound; nia.
+Qed.
+
+Lemma land_u64' a b : 0 <= a < 2 ^ 64 -> 0 <= b < 2 ^ 64 -> 0 <= Z.land a b < 2 ^ 64.
+Proof. intros. apply land_u64; lia. Qed.
+Lemma s64_range z : - 2 ^ 63 <= s64 z < 2 ^ 63.
+Proof. unfold s64. pose proof (Z.mod_pos_bound (z + 2 ^ 63) (2 ^ 64) ltac:(lia)). lia. Qed.
+Lemma arith_s64_some z r : arith_s64 z = Some r -> r = z /\ - 2 ^ 63 <= z < 2 ^ 63.
+Proof. unfold arith_s64. destruct ((- 2 ^ 63 <=? z) && (z <? 2 ^ 63)) eqn:E; [|discriminate]. intros H; injection H as <-. lia. Qed.
+
+Ltac rng :=
+  lazymatch goal with
+  | |- fits TULL _ = true => apply (proj2 (fits_ull _)); rng
+  | |- fits TLL _ = true => apply (proj2 (fits_ll _)); rng
+  | |- fits TInt _ = true => apply (proj2 (fits_int _)); rng
+  | |- 0 <= u64 _ < 2 ^ 64 => apply u64_range
+  | |- 0 <= Z.land _ _ < 2 ^ 64 => apply land_u64'; rng
+  | |- - 2 ^ 63 <= s64 _ < 2 ^ 63 => apply s64_range
+  | |- 0 <= Z.lor _ _ < 2 ^ 64 => apply lor_u64; rng
+  | |- 0 <= Z.shiftr _ _ < 2 ^ 64 => apply shiftr_u64; [rng | lia]
+  | |- _ => first [assumption | lia]
+  end.
+
+Ltac use_counts :=
+  repeat match goal with
+         | H : count_ok ?k = true |- context [count_ok ?k] => rewrite H
+         end.
+
+Ltac simp_eval :=
+  first [ rewrite ev_shl_ull | rewrite ev_shr_ull | rewrite ev_shl_ll
+        | rewrite ev_sub_ull by rng | rewrite ev_add_ull by rng | rewrite ev_and_ull by rng
+        | rewrite ev_or_ull by rng | rewrite ev_sub_int by rng | rewrite ev_sub_ll by rng
+        | rewrite ev_lt_ll by rng | rewrite ev_gt_ll by rng | rewrite arith_ll ];
+  unfold shl_u64, shr_u64; use_counts;
+  repeat match goal with
+         | H : shl_s64 ?a ?k = Some _ |- context [shl_s64 ?a ?k] => rewrite H
+         | H : arith_s64 ?z = Some _ |- context [arith_s64 ?z] => rewrite H
+         end;
+  cbn [option_map].
+
+Lemma ceval_cast_ull rho e t0 z : ceval rho e = Some (t0, z) -> ceval rho (ECast TULL e) = Some (TULL, u64 z).
+Proof. intros E. cbn [ceval]. rewrite E. reflexivity. Qed.
+Lemma ceval_cast_ll rho e t0 z : ceval rho e = Some (t0, z) -> ceval rho (ECast TLL e) = Some (TLL, s64 z).
+Proof. intros E. cbn [ceval]. rewrite E. reflexivity. Qed.
+Lemma ceval_not_ull rho e z : ceval rho e = Some (TULL, z) -> ceval rho (EUn UNot e) = Some (TULL, u64 (Z.lnot z)).
+Proof. intros E. cbn [ceval]. rewrite E. reflexivity. Qed.
+
+Lemma ceval_lor rho a b ta za tb zb : ceval rho a = Some (ta, za) -> ceval rho b = Some (tb, zb) ->
+  ceval rho (EBin BLOr a b) = Some (TInt, b2z (negb (za =? 0) || negb (zb =? 0))).
+Proof.
+  intros A B. cbn [ceval]. rewrite A, B. destruct (za =? 0); cbn [negb orb]; [|reflexivity].
+  destruct (zb =? 0); reflexivity.
+Qed.
+
+Ltac solve_ceval :=
+  lazymatch goal with
+  | |- ceval _ (ELit _ _) = _ => apply ceval_lit; reflexivity
+  | |- ceval _ (EVar _) = _ => apply ceval_var; [reflexivity | rng]
+  | |- ceval _ (ECast TULL _) = _ => eapply ceval_cast_ull; solve_ceval
+  | |- ceval _ (ECast TLL _) = _ => eapply ceval_cast_ll; solve_ceval
+  | |- ceval _ (EUn UNot _) = _ => eapply ceval_not_ull; solve_ceval
+  | |- ceval _ (EUn UNeg _) = _ =>
+      etransitivity; [eapply ceval_neg; solve_ceval | simp_eval; reflexivity]
+  | |- ceval _ (EBin _ _ _) = _ =>
+      etransitivity; [eapply ceval_bin; [exact I | solve_ceval | solve_ceval] | simp_eval; reflexivity]
+  end.
+
+Lemma run_step rho x t e r t0 z : ceval rho e = Some (t0, z) ->
+  run_prog rho ((x, t, e) :: r) = run_prog (env_set x t (conv t z) rho) r.
+Proof. intros E. cbn [run_prog]. rewrite E. reflexivity. Qed.
+
+Ltac step := erewrite run_step by solve_ceval;
+             repeat match goal with |- context [conv ?t ?z] => rewrite (conv_id t z) by rng end.
+
+Lemma env_set_same x t z rho : env_set x t z rho x = Some (t, z).
+Proof. unfold env_set. rewrite String.eqb_refl. reflexivity. Qed.
+
+Ltac finish_write v :=
+  unfold range_cond; erewrite ceval_lor; [ | solve_ceval | solve_ceval ];
+  match goal with |- context [v <? ?lo] => destruct (v <? lo) end;
+  match goal with |- context [?hi <? v] => destruct (hi <? v) end;
+  cbn [b2z negb orb Z.eqb]; try reflexivity;
+  unfold write_prog; step; step; step; step; cbn [run_prog]; rewrite env_set_same; reflexivity.
+
+Section Refine.
+  Variables (T : ity) (w sh : Z) (data : list Z).
+  Hypothesis P : placement T w sh.
+  Hypothesis U : unit_ok T data.
+
+  Theorem gen_read_refines : gen_read T w sh data = bf_read T w sh data.
+  Proof.
+    pose proof (u_range T data U) as Hu.
+    destruct P as [Hs Hw Hsh Hfit Hbool].
+    assert (8 * Z.of_nat (isize T) <= 64) as HB by lia.
+    pose proof (pow2_le (8 * Z.of_nat (isize T)) 64 ltac:(lia)) as PB.
+    unfold gen_read. rewrite guard_eval by (auto; lia).
+    unfold bf_read. destruct (Z.leb_spec 64 w) as [W|W]; [reflexivity|]. cbn [b2z Z.eqb negb].
+    assert (count_ok w = true) as Cw by (unfold count_ok; lia).
+    assert (count_ok (w - 1) = true) as Cw1 by (unfold count_ok; lia).
+    assert (count_ok sh = true) as Csh by (unfold count_ok; lia).
+    unfold rho0, shl_u64, shr_u64. rewrite Cw, Cw1, Csh.
+    remember (read_raw_unsigned data) as u eqn:Eu.
+    destruct (isigned T).
+    - unfold read_signed_prog.
+      assert (- 2 ^ 63 <= read_raw_signed data < 2 ^ 63) as Hrs.
+      { rewrite (signed_raw T data U). rewrite <- Eu.
+        pose proof (pow2_double (8 * Z.of_nat (isize T)) ltac:(lia)).
+        pose proof (pow2_le (8 * Z.of_nat (isize T) - 1) 63 ltac:(lia)).
+        destruct (u <? 2 ^ (8 * Z.of_nat (isize T) - 1)) eqn:E; lia. }
+      step. step. step. step.
+      cbn [run_prog].
+      match goal with |- context [ceval ?rho ?e] =>
+        assert (ceval rho e = option_map (pair TLL) (arith_s64
+          (s64 (Z.land (u64 (Z.shiftr (u64 (read_raw_signed data)) sh + u64 (1 * 2 ^ (w - 1)))) (u64 (u64 (1 * 2 ^ w) - 1)))
+           - s64 (u64 (1 * 2 ^ (w - 1)))))) as ->
+          by (etransitivity; [eapply ceval_bin; [exact I | solve_ceval | solve_ceval] | rewrite ev_sub_ll by rng; reflexivity])
+      end.
+      destruct (arith_s64 _) as [r|] eqn:EA; cbn [option_map result_of]; [|reflexivity].
+      apply arith_s64_some in EA. destruct EA as [-> Rr].
+      rewrite conv_id by rng. reflexivity.
+    - unfold read_unsigned_prog. step. step. step. reflexivity.
+  Qed.
+
+  Theorem gen_write_refines v : gen_write T w sh v data = bf_write T w sh v data.
+  Proof.
+    pose proof (u_range T data U) as Hu.
+    destruct P as [Hs Hw Hsh Hfit Hbool].
+    assert (8 * Z.of_nat (isize T) <= 64) as HB by lia.
+    pose proof (pow2_le (8 * Z.of_nat (isize T)) 64 ltac:(lia)) as PB.
+    unfold gen_write. rewrite guard_eval by (auto; lia).
+    unfold bf_write. destruct (Z.leb_spec 64 w) as [W|W]; [reflexivity|]. cbn [b2z Z.eqb negb].
+    unfold as_longlong. destruct ((- 2 ^ 63 <=? v) && (v <? 2 ^ 63)) eqn:LL; [|reflexivity].
+    assert (- 2 ^ 63 <= v < 2 ^ 63) as Hv by lia.
+    assert (count_ok w = true) as Cw by (unfold count_ok; lia).
+    assert (count_ok (w - 1) = true) as Cw1 by (unfold count_ok; lia).
+    assert (count_ok sh = true) as Csh by (unfold count_ok; lia).
+    pose proof (pow2_lt (w - 1) 63 ltac:(lia)) as Ph. pose proof (pow2_pos (w - 1) ltac:(lia)) as Ph0.
+    assert (shl_s64 1 (w - 1) = Some (2 ^ (w - 1))) as Hshl.
+    { unfold shl_s64. rewrite Cw1, Z.mul_1_l. replace (2 ^ (w - 1) <? 2 ^ 63) with true by lia. reflexivity. }
+    assert (arith_s64 (- 2 ^ (w - 1)) = Some (- 2 ^ (w - 1))) as Ha1.
+    { unfold arith_s64. replace ((- 2 ^ 63 <=? - 2 ^ (w - 1)) && (- 2 ^ (w - 1) <? 2 ^ 63)) with true by lia. reflexivity. }
+    assert (arith_s64 (2 ^ (w - 1) - 1) = Some (2 ^ (w - 1) - 1)) as Ha2.
+    { unfold arith_s64. replace ((- 2 ^ 63 <=? 2 ^ (w - 1) - 1) && (2 ^ (w - 1) - 1 <? 2 ^ 63)) with true by lia. reflexivity. }
+    unfold rho0, bf_bounds, shl_u64. rewrite Cw, Csh, Hshl, Ha1, Ha2.
+    remember (read_raw_unsigned data) as u eqn:Eu.
+    destruct (isigned T).
+    - unfold bounds_signed_prog. step. step. cbn [run_prog]. rewrite env_set_same.
+      destruct (2 ^ (w - 1) - 1 =? 0); finish_write v.
+    - unfold bounds_unsigned_prog. step. step. cbn [run_prog]. finish_write v.
+  Qed.
+End Refine.
